@@ -13,6 +13,7 @@ import (
 func run(c *fw.Ctx) {
 	m := fsx.Monitors{Model: true}
 	fsx.Explore(c, m)
+	fsx.Containment(c, m)
 	fsx.Histories(c, m, c.Pick(96, 4000), c.Pick(80, 200))
 }
 
